@@ -4,7 +4,7 @@ from __future__ import annotations
 import ast
 
 from ..absval import UNDEF
-from ..loader import norm, AnalysisError
+from ..loader import norm, own_nodes, AnalysisError
 from ..tables import tableinfo, sources_of, DATA, HEADER, LEVEL_NAMES
 from .common import fmt_value, analysed
 
@@ -109,6 +109,7 @@ def run(ctx):
     rep.rule('R2.1', 'pure construction: a view __init__ / a view-returning function reads at most the header of its table arguments')
     rep.rule('R2.2', 'no drain: a streaming iterator function consumes its streamed source only by next(), lazy wrappers or a yielding for-loop')
     rep.rule('R2.3', 'bounded rendering: repr/look/see/display apply eager consumers only to a finite islice of the table')
+    rep.rule('R2.5', 'presorted is honoured: a callable with a `presorted` parameter passes it (or a literal True after sorting itself) to every sort-backed callee, so presorted=True never reaches a sort (a sort reads its whole input before the first row)')
     rep.rule('R2.4', 'iterator functions of streaming views are generators or return lazy iterators')
     rep.assumptions = ['eager/lazy classification of builtins and itertools (calls.py) is trusted',
                        'facet() is eager by documentation']
@@ -118,6 +119,7 @@ def run(ctx):
     r22(ctx, rep, ti)
     r23(ctx, rep, ti)
     r24(ctx, rep, ti)
+    r25(ctx, rep, ti)
 
 
 # ------------------------------------------------------------------------ R2.1
@@ -420,3 +422,51 @@ def r24(ctx, rep, ti):
                          '__iter__ of a streaming view returns %s, not a generator / lazy iterator' % fmt_value(rv),
                          it.node)
     ctx.floor('streaming_views', n, 50)
+
+
+# ------------------------------------------------------------------------ R2.5
+def r25(ctx, rep, ti):
+    """With presorted=True the merge operators stream; that is lost as soon as
+    some wrapper on the way forgets the flag, because the callee then falls
+    back to presorted=False and wraps its inputs in sort().  (That the
+    constructor itself skips the sort under presorted=True is C11 R11.3.)"""
+    from .c11 import _callee_fns, _passed
+    n = 0
+    for fn in ctx.functions(['petl'], controls=[CONTROL]):
+        if 'presorted' not in fn.params:
+            continue
+        real = not fn.module.name.startswith('petl._controls')
+        for node in own_nodes(fn.node):
+            if not isinstance(node, ast.Call):
+                continue
+            for g, bound in _callee_fns(ctx, fn, node):
+                if 'presorted' not in g.params or g is fn:
+                    continue
+                p = _passed(g, bound, node, 'presorted', fn)
+                construct = '%s(...): presorted' % norm(node.func)
+                # only calls that hand the caller's own table(s) on: a derived view (a projection, a sort by
+                # another key) is not ordered by the callee's key whatever the caller promised
+                tparams = ti.ctor_table_params(g) if g.name == '__init__' else \
+                    {t for t in ti.table_sources(g) if not t.startswith('self')}
+                own = False
+                for tp in tparams:
+                    a = _passed(g, bound, node, tp[:-2] if tp.endswith('[]') else tp)
+                    if a is not None and isinstance(a[1], ast.Name) and a[1].id in fn.params:
+                        own = True
+                if not own:
+                    continue
+                if real:
+                    n += 1
+                if p is None:
+                    rep.violated('R2.5', fn, construct,
+                                 '%s has a `presorted` parameter but calls %s without passing it: the callee falls back to '
+                                 'presorted=False and sorts its inputs, so a caller who asked for presorted=True gets a full '
+                                 'scan of every input before the first row instead of a streaming merge' % (fn.name, g.fq), node)
+                elif p[1] is not None and isinstance(p[1], ast.Constant) and p[1].value is False:
+                    rep.violated('R2.5', fn, construct,
+                                 '%s passes a literal presorted=False to %s although it has its own `presorted` parameter'
+                                 % (fn.name, g.fq), node)
+                else:
+                    rep.held('R2.5', fn, construct, 'passed on' if p[1] is None or not isinstance(p[1], ast.Constant)
+                             else 'literal True (sorted by the caller, see C11 R11.3)', node)
+    ctx.floor('presorted_call_sites', n, 15)
